@@ -457,6 +457,166 @@ ENGINES.append({"name": "c12lock", "gen": gen_lock, "corpus": lambda: ["I L", "L
                 "classify": lambda case, out: ["requests:%d" % len(case.split())] + (["info"] if "I" in case else []) + (["list"] if "L" in case else [])})
 EXTRAS = [regrace, statelock]
 
+# ---------------------------------------------------------------- the router list over a population of monitored routers (engine c12rl)
+RL_KEYS = SORT_BY[:12]
+RL_PEERS = [0, 5, 6, 8, 4, 9]
+RL_STATES = {
+    "initiating": lambda k: ["N"],
+    "no-peers": lambda k: ["R"],
+    "none-eor": lambda k: ["R", "U %d 0 0" % k, "U %d 5 0" % k],
+    "all-dumping": lambda k: ["R", "U %d 0 1" % k, "U %d 5 1" % k, "A %d 0" % k, "A %d 5" % k],
+    "mixed": lambda k: ["R", "U %d 0 1" % k, "U %d 5 0" % k, "U %d 6 1" % k, "A %d 0" % k, "A %d 6" % k, "E %d 6" % k, "S %d" % k, "H %d" % k],
+    "all-down": lambda k: ["R", "U %d 0 1" % k, "A %d 0" % k, "D %d 0" % k],
+    "late-init": lambda k: ["N", "I %d" % k, "U %d 8 1" % k],
+}
+
+
+def rl_q(q):
+    return "Q " + (hx(q) if q is not None else "-")
+
+
+def rl_all_requests():
+    """every sort_by key x sort_order, plus the unknown values"""
+    qs = [None]
+    for key in RL_KEYS + ["bogus", ""]:
+        for order in [None, "asc", "desc", "bogus"]:
+            qs.append(("sort_by=%s" % key + ("&sort_order=%s" % order if order is not None else "")).encode())
+    qs += [b"sort_order=desc", b"sort_order=", b"sort_order=DESC", b"sort_by[x]=peers_up_dumping_pc", b"sort_order=asc&sort_by=peers_up_eor_capable_pc",
+           b"sort_by=peers_up&sort_by=bogus", b"sort_by=bogus&sort_by=peers_up", b"x=1&sort_by=peers_up_eor_capable_pc&y=2"]
+    return [rl_q(q) for q in qs]
+
+
+def rl_population(names):
+    ops = []
+    for k, n in enumerate(names):
+        ops += RL_STATES[n](k)
+    return ops
+
+
+# RouterListModel.rl_discriminating: (sysName, sysDesc, peers up, EoR capable, dumping, soft, hard); every two judged sort keys order
+# some pair of these routers differently (C12_router_list_keys_told_apart), so a key that sorts on the wrong metric shows
+RL_DISCRIMINATING = [("b", "y", 3, 1, 1, 0, 2), ("a", "z", 2, 2, 2, 1, 0), ("c", "x", 1, 0, 0, 2, 1), ("d", "w", 4, 3, 1, 0, 0),
+                     ("e", "v", 5, 4, 2, 3, 3), None, ("f", "u", 1, 1, 0, 1, 1)]
+
+
+def rl_router(k, spec):
+    if spec is None:
+        return ["N"]
+    name, desc, up, eor, dump, soft, hard = spec
+    ops = ["R %s %s" % (name, desc)]
+    for j in range(up):
+        ops.append("U %d %d %d" % (k, RL_PEERS[j], 1 if j < eor else 0))
+    for j in range(dump):
+        ops.append("A %d %d" % (k, RL_PEERS[j]))
+    return ops + ["S %d" % k] * soft + ["H %d" % k] * hard
+
+
+def corpus_rl():
+    names = list(RL_STATES)
+    pops = [[]] + [[n] for n in names] + [names, ["initiating", "mixed", "all-dumping"], ["mixed", "mixed", "no-peers"]]
+    disc = [op for k, spec in enumerate(RL_DISCRIMINATING) for op in rl_router(k, spec)]
+    return [";".join(rl_population(p) + rl_all_requests()) for p in pops] + [";".join(disc + rl_all_requests())]
+
+
+def gen_rl_case(rng):
+    ops = []
+    n = rng.weighted([(0, 5), (1, 35), (2, 30), (3, 20), (5, 10)])
+    disc = rng.chance(20)
+    if disc:
+        n = len(RL_DISCRIMINATING)
+        for k, spec in enumerate(RL_DISCRIMINATING):
+            ops += rl_router(k, spec)
+    for k in range(0 if disc else n):
+        if rng.chance(30):
+            ops += RL_STATES[rng.choice(list(RL_STATES))](k)
+            continue
+        if rng.chance(15):
+            ops.append("N")
+            if rng.chance(60):
+                continue
+            ops.append("I %d" % k)
+        else:
+            ops.append("R %s %s" % (rng.choice(["a", "b", "ab", "B", "r1", "r10", "r2", "zz", "0"]), rng.choice(["d", "x", "y", "D1", "d0", "z9"])) if rng.chance(80) else "R")
+        peers = {}
+        for _ in range(rng.weighted([(0, 20), (1, 15), (2, 15), (4, 20), (8, 20), (14, 10)])):
+            what = rng.weighted([("U", 40), ("A", 25), ("E", 15), ("D", 12), ("S", 4), ("H", 4)])
+            if what == "U":
+                free = [p for p in RL_PEERS if p not in peers]
+                if free:
+                    p = rng.choice(free)
+                    peers[p] = rng.chance(60)
+                    ops.append("U %d %d %d" % (k, p, 1 if peers[p] else 0))
+            elif what in ("A", "E", "D"):
+                if peers:
+                    p = rng.choice(sorted(peers))
+                    ops.append("%s %d %d" % (what, k, p))
+                    if what == "D":
+                        del peers[p]
+            else:
+                ops.append("%s %d" % (what, k))
+    for _ in range(rng.range(3, 9)):
+        parts = []
+        if rng.chance(90):
+            key = rng.choice(RL_KEYS[7:9]) if rng.chance(35) else rng.choice(SORT_BY + ["bogus", "peers_up_dumping_pc ", "é"])
+            name = rng.weighted([("sort_by", 85), ("sort_by[a]", 5), ("sort_by]", 3), ("Sort_by", 3), ("sort_by ", 2), ("sort", 2)])
+            parts.append(qenc(rng, name, 3, keep=b"[]") + b"=" + qenc(rng, key, 8))
+        if rng.chance(45):
+            parts.append(b"sort_order=" + qenc(rng, rng.choice(["asc", "desc", "desc", "", "ASC", "down", "asc,desc"]), 8))
+        if rng.chance(10):
+            parts.append(qenc(rng, rng.choice(["x", "format", "sort"]), 0) + b"=" + qenc(rng, rng.choice(["1", "", "peers_up"]), 0))
+        if rng.chance(25):
+            parts.reverse()
+        ops.append(rl_q(b"&".join(parts) if parts or rng.chance(50) else None))
+    return ";".join(ops)
+
+
+def gen_rl(rng, tier):
+    for _ in range(400 if tier == "quick" else 20000):
+        yield gen_rl_case(rng)
+
+
+def classify_rl(case, out):
+    ks = set()
+    for op in case.split(";"):
+        t = op.split()
+        if t and t[0] == "Q" and t[1] not in ("-", "_"):
+            q = bytes.fromhex(t[1]).decode("latin-1")
+            for key in RL_KEYS:
+                if "sort_by=" + key in q and not q.split("sort_by=" + key, 1)[1][:1].isalpha() and not q.split("sort_by=" + key, 1)[1][:1] == "_":
+                    ks.add("key:" + key)
+    toks = out.split()
+    for t in toks:
+        if t in ("400", "PANIC", "none", "rejected"):
+            ks.add("answer:" + t)
+        elif t.startswith("rows="):
+            ks.add("answer:200")
+        elif t[0] == "c" and "=" in t and t[1:2].isdigit():
+            vs = t.split("=", 1)[1].split(",")
+            if len(set(vs)) > 1:
+                ks.add("order-judged:" + ("desc" if vs != sorted(vs, key=lambda x: (0, int(x)) if x.isdigit() else (1, x)) else "asc"))
+        elif "=" in t and t[0] == "r":
+            v = t.split("=", 1)[1]
+            if v == "-":
+                ks.add("router:initiating")
+            elif v.startswith("0/"):
+                ks.add("router:no-peer-up")
+            elif "/0(0)/" in v:
+                ks.add("router:peers-up-none-eor-capable")
+            elif v.endswith("(100)") and not v.endswith("/0(100)"):
+                ks.add("router:all-dumping")
+            else:
+                ks.add("router:mixed")
+    return sorted(ks)
+
+
+def nontrivial_rl(case, out):
+    # a request with a sort key against at least one router that is past its Initiation, or a refused request
+    return ("sort_by" in "".join(bytes.fromhex(t.split()[1]).decode("latin-1") for t in case.split(";") if t.startswith("Q ") and t.split()[1] not in ("-", "_"))
+            and any(t[0] == "r" and "=" in t and not t.endswith("=-") and not t.startswith("rows=") for t in out.split())) or "400" in out.split()
+
+
+ENGINES.append({"name": "c12rl", "gen": gen_rl, "corpus": corpus_rl, "nontrivial": nontrivial_rl, "classify": classify_rl, "shards": 8})
+
 # ---------------------------------------------------------------- raw bytes over TCP to the HTTP server of a running pipeline
 from props import c12tcp_common  # noqa: E402
 ENGINES.append(c12tcp_common.engine())
